@@ -177,7 +177,7 @@ theorem hasValidStop_ok (c : CDS) (h : WFCDS c)
   | none =>
     have hnil : triples lk = [] := List.getLast?_eq_none_iff.mp hl
     simp only [hnil, List.flatten_nil, List.map_nil, List.getLast?_nil]
-    simp [pySlice, mkCodon, upperStr, throw, throwThe, MonadExceptOf.throw]
+    simp [pure, Except.pure]
   | some t =>
     have htm : t ∈ triples lk := List.mem_of_getLast? hl
     have ht3 := hok t htm
@@ -186,7 +186,7 @@ theorem hasValidStop_ok (c : CDS) (h : WFCDS c)
       rw [hab]; simp; omega
     have hdrop := flatten_drop_last (triples lk) t hl
     rw [ht3.1] at hdrop
-    rw [pySlice_last3 _ hlen, hdrop, mkCodon_upper t ht3.1 ht3.2]
+    rw [if_neg (by omega), pySlice_last3 _ hlen, hdrop, mkCodon_upper t ht3.1 ht3.2]
     simp only [List.getLast?_map, hl, Option.map_some, pure, Except.pure, ans_ok, isStopCodon_eq]
     simp
 
